@@ -293,7 +293,11 @@ impl IndexFooter {
     pub fn is_valid(&self) -> bool {
         let expected = self.calculate_footer_hash();
         let actual_len = self.footer_hash.len().min(self.footer_hash_bytes as usize);
-        self.footer_hash[..actual_len] == expected[..actual_len]
+        // A damaged length field can ask for more bytes than the hash has, or
+        // for none at all: neither can vouch for the footer.
+        actual_len >= 1
+            && actual_len <= expected.len()
+            && self.footer_hash[..actual_len] == expected[..actual_len]
     }
 
     /// Write footer to writer
@@ -482,7 +486,9 @@ impl ArchiveIndex {
             let mut actual_arr = [0u8; 8];
             let copy_len = expected_hash.len().min(8);
             expected_arr[..copy_len].copy_from_slice(&expected_hash[..copy_len]);
-            actual_arr[..copy_len].copy_from_slice(&footer.footer_hash[..copy_len]);
+            // The stored hash is as long as the (possibly damaged) length field said
+            let actual_len = footer.footer_hash.len().min(8);
+            actual_arr[..actual_len].copy_from_slice(&footer.footer_hash[..actual_len]);
             return Err(ArchiveError::ChecksumMismatch {
                 expected: expected_arr,
                 actual: actual_arr,
@@ -1134,7 +1140,9 @@ impl ChunkedArchiveIndex {
             let mut actual_arr = [0u8; 8];
             let copy_len = expected_hash.len().min(8);
             expected_arr[..copy_len].copy_from_slice(&expected_hash[..copy_len]);
-            actual_arr[..copy_len].copy_from_slice(&footer.footer_hash[..copy_len]);
+            // The stored hash is as long as the (possibly damaged) length field said
+            let actual_len = footer.footer_hash.len().min(8);
+            actual_arr[..actual_len].copy_from_slice(&footer.footer_hash[..actual_len]);
             return Err(ArchiveError::ChecksumMismatch {
                 expected: expected_arr,
                 actual: actual_arr,
